@@ -189,3 +189,82 @@ package store
 //@     do gets = gets + 1
 //@   ensures[C17:allowed-only-for-the-registered-account] r0 ==> r1 == nil && gets == 1 && b.BackendUser == backendUser
 //@   ensures[C17:registered-account-is-allowed] r1 == nil && !r0 ==> gets == 1
+
+// ---- routing to a live backend (C18): the user's own backends first, shared ones only when the user has no match,
+// ---- and never a backend whose agent has not been seen within the last five minutes ----
+// Assumption (datastore, trusted): entities returned by a query are non-nil and carry a non-empty id.
+//@ func (*persistentStore).hasBackend props(C18,C07)
+//@   ghost gets int = 0
+//@   ghost getFailed bool = false
+//@   ghost age int = 0
+//@   ghost sinces int = 0
+//@   call datastore.Get
+//@     assert[C18:tracker-of-this-backend-is-read] gets == 0 && keyKind(arg1) == "backendTracker" && keyName(arg1) == backendID
+//@     do gets = gets + 1
+//@     do getFailed = ret0 != nil
+//@   call time.Since
+//@     assert[C18:age-computed-only-from-a-tracker-that-was-read] gets == 1 && !getFailed && sinces == 0
+//@     do age = ret0
+//@     do sinces = sinces + 1
+//@   ensures[C18:alive-iff-tracker-read-and-younger-than-the-timeout] r0 <==> (gets == 1 && !getFailed && sinces == 1 && age < lastSeenTimeout)
+
+//@ func (*persistentStore).lookupSharedBackend props(C18,C07)
+//@   ghost queries int = 0
+//@   ghost qFailed bool = false
+//@   ghost bid string = ""
+//@   ghost matchErr bool = false
+//@   ghost matched int = 0
+//@   ghost alive bool = false
+//@   ghost asked int = 0
+//@   call (*datastore.Query).GetAll
+//@     assert[C18:shared-backends-are-those-of-allUsers] queries == 0 && qKind(arg0) == "backend" && qField(arg0) == "EndUser=" && typeis(qValue(arg0), "string") && ifaceStr(qValue(arg0)) == "allUsers"
+//@     do queries = queries + 1
+//@     do qFailed = ret1 != nil
+//@     assume forall(i, 0, len(backends), backends[i] != nil && idAt(backends, i) != "")
+//@   call mostSpecificMatchingBackend
+//@     assert[C18:most-specific-shared-backend] queries == 1 && !qFailed && arg0 == path && arg1 == backends && matched == 0
+//@     do bid = ret0
+//@     do matchErr = ret1 != nil
+//@     do matched = matched + 1
+//@   call (*persistentStore).hasBackend
+//@     assert[C18:liveness-of-the-matched-shared-backend] matched == 1 && !matchErr && arg2 == bid && arg3 == 300000000000 && asked == 0
+//@     do alive = ret0
+//@     do asked = asked + 1
+//@   ensures[C18:shared-match-returned-only-if-alive] r1 == nil ==> matched == 1 && !matchErr && asked == 1 && alive && r0 == bid
+//@   ensures[C18:live-shared-match-is-returned] matched == 1 && !matchErr && alive ==> r1 == nil && r0 == bid
+
+//@ func (*persistentStore).LookupBackend props(C18,C17,C07)
+//@   ghost queries int = 0
+//@   ghost qFailed bool = false
+//@   ghost bid string = ""
+//@   ghost matchErr bool = false
+//@   ghost matched int = 0
+//@   ghost alive bool = false
+//@   ghost asked int = 0
+//@   ghost shared int = 0
+//@   ghost sres string = ""
+//@   ghost sfailed bool = false
+//@   call (*datastore.Query).GetAll
+//@     assert[C18:own-backends-of-this-user-queried-first] queries == 0 && shared == 0 && qKind(arg0) == "backend" && qField(arg0) == "EndUser=" && typeis(qValue(arg0), "string") && ifaceStr(qValue(arg0)) == endUser
+//@     do queries = queries + 1
+//@     do qFailed = ret1 != nil
+//@     assume forall(i, 0, len(backends), backends[i] != nil && idAt(backends, i) != "")
+//@   call mostSpecificMatchingBackend
+//@     assert[C18:most-specific-of-the-users-own-backends] queries == 1 && !qFailed && arg0 == path && arg1 == backends && matched == 0
+//@     do bid = ret0
+//@     do matchErr = ret1 != nil
+//@     do matched = matched + 1
+//@   call (*persistentStore).lookupSharedBackend
+//@     assert[C18:shared-fallback-only-when-the-user-has-no-match] matched == 1 && matchErr && shared == 0 && asked == 0 && arg2 == path
+//@     do shared = shared + 1
+//@     do sres = ret0
+//@     do sfailed = ret1 != nil
+//@   call (*persistentStore).hasBackend
+//@     assert[C18:liveness-of-the-users-matched-backend] matched == 1 && !matchErr && arg2 == bid && arg3 == 300000000000 && asked == 0 && shared == 0
+//@     do alive = ret0
+//@     do asked = asked + 1
+//@   ensures[C18:a-users-match-is-returned-only-if-alive] r1 == nil && matched == 1 && !matchErr ==> asked == 1 && alive && r0 == bid && shared == 0
+//@   ensures[C18:a-live-match-is-returned] matched == 1 && !matchErr && alive ==> r1 == nil && r0 == bid
+//@   ensures[C18:no-fallback-from-a-dead-match] matched == 1 && !matchErr && !alive ==> r1 != nil && shared == 0
+//@   ensures[C18:without-a-match-the-answer-is-the-shared-lookups] matched == 1 && matchErr ==> shared == 1 && r0 == sres && (r1 != nil <==> sfailed)
+//@   ensures[C18:a-failed-query-routes-nowhere] qFailed ==> r1 != nil && matched == 0 && shared == 0
